@@ -306,7 +306,7 @@ class StmtMixin:
             if stage == "assume":
                 self.assume(g, st)
             else:
-                self.oblige("inv-%s#%d" % (stage, lid), label, g, st, node, info={"clause": text})
+                self.oblige_split("inv-%s#%d" % (stage, lid), label, g, st, node, info={"clause": text})
 
     def inv_loop(self, node, st, lid, spec, kind, n=None, getter=None, seq=None):
         tag = "L%d" % lid
